@@ -6,6 +6,7 @@ package main
 
 import (
 	"bytes"
+	"strings"
 	"fmt"
 	"math"
 	"runtime"
@@ -348,6 +349,11 @@ func callBloom(stream string, fl *wire.MsgFilterLoad, datas [][]byte, txs []*bch
 			nf.Add(d)
 			return nontriv
 		})
+		// a recorded history on one object against the checked history model (NoPanic/BloomHistNP.v, run_checked)
+		if okM && okA && (fl == nil || (len(fl.Filter) <= 64 && fl.HashFuncs <= 50)) && len(d) <= 64 && bloomHist < cfg.Scale(40, 200) {
+			bloomHist++
+			bloomHistoryCase(stream, fl, d)
+		}
 		// correspondence with the checked model (NoPanic/BloomNP.v), small arrays only
 		if okM && okA && (fl == nil || len(fl.Filter) <= 128) && bloomCases < cfg.Scale(120, 600) {
 			bloomCases++
@@ -420,7 +426,7 @@ func merkleReplay(msg *wire.MsgMerkleBlock) func() interface{} {
 	}
 }
 
-var bloomCases, merkleCases int
+var bloomCases, merkleCases, bloomHist int
 
 // inChild is set in the memory-capped child process; only there may a message declare more than
 // 2^22 transactions (code that sizes anything by the declared count would otherwise be able to take the
@@ -939,4 +945,70 @@ func runWire(rng *vh.RNG) {
 		}
 		rep.Extra["block_scan_ramp_"+rf.key] = obs
 	}
+}
+
+// bloomHistoryCase replays on ONE filter object a history of successive filter-load messages of different sizes
+// (the original, 1 byte, larger, the original again, empty, nil) with Add / Matches / IsLoaded between them and
+// writes what every call returned (true for calls without a result) and the final array as a BloomH case.
+func bloomHistoryCase(stream string, fl *wire.MsgFilterLoad, d []byte) {
+	hf, tweak := uint32(3), uint32(0)
+	n0 := 0
+	if fl != nil {
+		n0 = len(fl.Filter)
+		tweak = fl.Tweak
+		if fl.HashFuncs > 0 {
+			hf = fl.HashFuncs
+		}
+	}
+	coqMsg := func(m *wire.MsgFilterLoad) string {
+		if m == nil {
+			return "false [] 0 0 0"
+		}
+		return fmt.Sprintf("true %s %d %d %d", vh.CoqBytes(m.Filter), m.HashFuncs, m.Tweak, uint32(m.Flags))
+	}
+	d2 := append(append([]byte(nil), d...), 0x5a)
+	msgs := []*wire.MsgFilterLoad{
+		{Filter: make([]byte, 1), HashFuncs: hf, Tweak: tweak},
+		{Filter: bytes.Repeat([]byte{0x11}, n0+7), HashFuncs: hf, Tweak: tweak + 1, Flags: wire.BloomUpdateAll},
+		cloneFL(fl),
+		{Filter: []byte{}, HashFuncs: hf},
+		nil,
+		{Filter: make([]byte, 2), HashFuncs: 1, Tweak: tweak},
+	}
+	var ops []string
+	var outs []string
+	var f *bloom.Filter
+	finalLoaded, final := false, []byte(nil)
+	if p, msg := vh.Catch(func() {
+		f = bloom.LoadFilter(cloneFL(fl))
+		step := func(op string, res bool) { ops = append(ops, op); outs = append(outs, vh.CoqBool(res)) }
+		use := func() {
+			f.Add(d)
+			step("BAdd "+vh.CoqBytes(d), true)
+			step("BMatches "+vh.CoqBytes(d), f.Matches(d))
+			step("BMatches "+vh.CoqBytes(d2), f.Matches(d2))
+			step("BIsLoaded", f.IsLoaded())
+		}
+		use()
+		for i, m := range msgs {
+			if i == 4 {
+				f.Unload()
+				step("BUnload", true)
+				use()
+			}
+			f.Reload(cloneFL(m))
+			step("BReload "+coqMsg(m), true)
+			use()
+		}
+		if m := f.MsgFilterLoad(); m != nil {
+			finalLoaded, final = true, append([]byte(nil), m.Filter...)
+		}
+	}); p {
+		rep.Violate("C08:bloom.history:panic", "a call panicked in a history of successive filter-load messages on one filter object: "+msg,
+			map[string]interface{}{"entry": "bloom.history", "stream": stream, "input": flReplay(fl, map[string]interface{}{"data": vh.Hex(d)})(), "steps_done": ops, "panic": msg})
+		return
+	}
+	rep.Count("bloom.history/"+stream, flKey(fl)+"|"+string(d), true)
+	cases.Add(fmt.Sprintf("BloomH %s [%s] [%s] %s %s", coqMsg(fl), strings.Join(ops, "; "), strings.Join(outs, "; "), vh.CoqBool(finalLoaded), vh.CoqBytes(final)),
+		map[string]interface{}{"op": "bloom history on one object", "filter": flReplay(fl, nil)(), "data": vh.Hex(d), "steps": len(ops)})
 }
